@@ -154,6 +154,10 @@ impl<'a, D> Bfs<'a, D> {
     ///
     /// * `digraph`: The digraph.
     /// * `sources`: The source vertices.
+    ///
+    /// # Panics
+    ///
+    /// Panics if a source vertex isn't in the digraph.
     #[must_use]
     pub fn new<T>(digraph: &'a D, sources: T) -> Self
     where
@@ -163,14 +167,13 @@ impl<'a, D> Bfs<'a, D> {
         let order = digraph.order();
         let mut queue = VecDeque::with_capacity(order);
         let mut visited = vec![false; order];
-        let visited_ptr = visited.as_mut_ptr();
 
         for u in sources {
+            assert!(u < order, "u = {u} isn't in the digraph");
+
             queue.push_back(u);
 
-            unsafe {
-                *visited_ptr.add(u) = true;
-            }
+            visited[u] = true;
         }
 
         Self {
@@ -189,17 +192,15 @@ where
 
     fn next(&mut self) -> Option<Self::Item> {
         let u = self.queue.pop_front()?;
-        let visited_ptr = self.visited.as_mut_ptr();
 
         for v in self.digraph.out_neighbors(u) {
-            let visited_v = unsafe { visited_ptr.add(v) };
+            // Checked: a successor may lie outside `0..order`.
+            let visited_v = &mut self.visited[v];
 
-            unsafe {
-                if !*visited_v {
-                    *visited_v = true;
+            if !*visited_v {
+                *visited_v = true;
 
-                    self.queue.push_back(v);
-                }
+                self.queue.push_back(v);
             }
         }
 
